@@ -12,8 +12,10 @@
 //!            range of every `gen_range(0..n)` are recognised from the behaviour of the real code on a
 //!            grid of words); oracle: detailed balance w.r.t. exp(-beta * get_energy) (spin, edge, and
 //!            worm with zero biases), rows sum to 1.
-//!   witness  fixed inputs: the worm kernel on the F11 witness graphs (oracle: detailed balance w.r.t. the
-//!            reported energy -> FAIL on the unchanged tree), importance sampling with total J <= 0 (F13).
+//!   witness-worm / witness-asym   fixed inputs: the worm kernel on the F11 / F17 witness graphs (oracle:
+//!            stationarity w.r.t. the reported energy -> FAIL on the unchanged tree = known findings).
+//!   regress-imp / regress-noedges  fixed inputs of the fixed findings F13 (importance sampling with signed
+//!            total J <= 0, all J = 0) and F18 (graph without edges).
 
 use qmc::classical::graph::{Edge, GraphState};
 use rand::{Error, RngCore};
@@ -119,21 +121,9 @@ impl Model {
         }
         e
     }
-    fn total_j(&self) -> f64 {
-        self.edges.iter().map(|e| e.1).sum()
-    }
-    /// running sums strictly increasing (then the table look-up does not depend on the std version)
-    fn table_increasing(&self) -> bool {
-        let mut acc = 0.0;
-        let mut prev = f64::NEG_INFINITY;
-        for (_, j) in &self.edges {
-            acc += j;
-            if !(acc > prev) {
-                return false;
-            }
-            prev = acc;
-        }
-        true
+    /// total importance weight: sum of |J|
+    fn total_abs_j(&self) -> f64 {
+        self.edges.iter().map(|e| e.1.abs()).sum()
     }
     fn graph(&self, state: &[bool], rng: Shared, imp: bool) -> GraphState<Shared> {
         let mut g = GraphState::new_with_state_and_rng(state.to_vec(), &self.edges, &self.biases, rng);
@@ -290,13 +280,12 @@ fn traj_case(m: &Model, beta: f64, imp: bool, ns: Option<usize>, ne: Option<usiz
 }
 
 fn mode_traj(a: &Args, g: &mut SplitMix64) {
-    let ncases = if a.thorough { 6000 } else { 900 };
+    let ncases = if a.thorough { 30000 } else { 2000 };
     for c in 0..ncases {
         let n = 2 + g.below(5) as usize;
-        let want_imp = g.chance(1, 3);
-        let shape = if want_imp { 4 + g.below(2) } else { g.below(4) };
+        let imp = g.chance(1, 3);
+        let shape = g.below(6);
         let m = gen_model(g, n, shape);
-        let imp = want_imp && m.total_j() > 0.0 && m.table_increasing();
         let beta = match g.below(8) {
             0 => 0.0,
             1 => 4.0,
@@ -341,7 +330,7 @@ fn one_move(m: &Model, beta: f64, imp: bool, kind: u64, s0: &[bool], script: &[u
 }
 
 fn mode_thr(a: &Args, g: &mut SplitMix64) {
-    let ncases = if a.thorough { 4000 } else { 600 };
+    let ncases = if a.thorough { 15000 } else { 1200 };
     for _ in 0..ncases {
         let n = 2 + g.below(5) as usize;
         let shape = g.below(4);
@@ -415,7 +404,7 @@ fn mode_thr(a: &Args, g: &mut SplitMix64) {
 // ------------------------------------------------------------------------------------------------
 // imp: boundaries of the importance-sampling table
 // ------------------------------------------------------------------------------------------------
-fn distinct_pair_model(g: &mut SplitMix64, n: usize, neg_first: bool) -> Model {
+fn distinct_pair_model(g: &mut SplitMix64, n: usize, mixed_signs: bool) -> Model {
     let mut pairs: Vec<(usize, usize)> = vec![];
     for a in 0..n {
         for b in (a + 1)..n {
@@ -429,21 +418,21 @@ fn distinct_pair_model(g: &mut SplitMix64, n: usize, neg_first: bool) -> Model {
     }
     let m = (2 + g.below(pairs.len() as u64 - 1) as usize).min(pairs.len());
     let mut edges: Vec<(Edge, f64)> = pairs[..m].iter().map(|p| (*p, nonzero_dyadic(g, 0, 2, 8).abs())).collect();
-    if neg_first {
-        let tot: f64 = edges.iter().skip(1).map(|e| e.1).sum();
-        let k = (tot * 8.0) as i64;
-        if k >= 2 {
-            edges[0].1 = -(g.range(1, k - 1) as f64) / 8.0;
+    if mixed_signs {
+        for e in edges.iter_mut() {
+            if g.coin() {
+                e.1 = -e.1;
+            }
         }
     }
     Model { edges, biases: vec![0.0; n] }
 }
 
 fn mode_imp(a: &Args, g: &mut SplitMix64) {
-    let ncases = if a.thorough { 600 } else { 120 };
+    let ncases = if a.thorough { 2000 } else { 150 };
     for c in 0..ncases {
         let n = 3 + g.below(3) as usize;
-        let m = distinct_pair_model(g, n, c % 3 == 0);
+        let m = distinct_pair_model(g, n, c % 3 != 0);
         let input = format!("imp {} {}", m.show_edges(), n);
         let s0 = vec![false; n];
         let mm = m.clone();
@@ -479,13 +468,13 @@ fn mode_imp(a: &Args, g: &mut SplitMix64) {
         stat("imp_cases", 1);
         match r {
             Ok(bounds) => {
-                // oracle: selection frequencies are proportional to the (positive part of the running sums of) J
-                let tot = m.total_j();
+                // oracle: edge k is selected with probability |J_k| / sum |J|
+                let tot = m.total_abs_j();
                 let mut acc = 0.0;
                 let mut ok = Ok(());
                 for (k, b) in bounds.iter().enumerate() {
-                    acc += m.edges[k].1;
-                    let want = if acc < 0.0 { 0.0 } else { acc / tot };
+                    acc += m.edges[k].1.abs();
+                    let want = acc / tot;
                     if (want - b).abs() > 1e-9 {
                         ok = Err(format!("boundary {} measured {} expected {}", k, b, want));
                         break;
@@ -755,7 +744,9 @@ fn small_model(g: &mut SplitMix64, n: usize, imp: bool) -> Model {
         if b >= a {
             b += 1;
         }
-        let j = if imp { (1 + g.below(8)) as f64 / 4.0 } else { nonzero_dyadic(g, -2, 2, 4) };
+        let _ = imp;
+        // |J| = k/4, k in 1..8: every importance share is >= 1/32 (> probe grid cell 1/128)
+        let j = nonzero_dyadic(g, -2, 2, 4);
         edges.push(((a, b), j));
     }
     let biases = if g.chance(1, 3) { vec![0.0; n] } else { (0..n).map(|_| g.dyadic(-1, 1, 4)).collect() };
@@ -763,7 +754,7 @@ fn small_model(g: &mut SplitMix64, n: usize, imp: bool) -> Model {
 }
 
 fn mode_kern(a: &Args, g: &mut SplitMix64) {
-    let ncases = if a.thorough { 150 } else { 30 };
+    let ncases = if a.thorough { 600 } else { 60 };
     for c in 0..ncases {
         let n = 2 + (c % 2) as usize;
         let kind = (c / 2) % 2;
@@ -778,9 +769,10 @@ fn mode_kern(a: &Args, g: &mut SplitMix64) {
 /// when all biases are zero (then F11 does not enter); with biases only the rows are checked here and the
 /// failing law is pinned by the `witness` mode.
 fn mode_kern_worm(a: &Args, g: &mut SplitMix64) {
-    let ncases = if a.thorough { 80 } else { 16 };
+    let ncases = if a.thorough { 400 } else { 40 };
     for c in 0..ncases {
-        let n = 2 + (c % 2) as usize;
+        // 4 spins (16 states, 256 kernel entries) in the thorough tier and for a few quick cases
+        let n = if a.thorough || c % 8 == 7 { 2 + (c % 3) as usize } else { 2 + (c % 2) as usize };
         let mut m = small_model(g, n, false);
         if c % 4 < 2 {
             m.biases = vec![0.0; n];
@@ -829,23 +821,68 @@ fn mode_witness_asym() {
     kern_case(&m, 0.5, false, 2, true);
 }
 
-fn mode_witness_noedges() {
-    // a graph without edges (biases only): the edge move draws gen_range(0..0)
+/// regression for fix aaa8c52 (was finding F18): a graph without edges (biases only); the edge move is a no-op
+fn mode_regress_noedges() {
     let m = Model { edges: vec![], biases: vec![0.5, -0.25] };
-    traj_case(&m, 1.0, false, None, None, None, true, &[false, true], 1, vec![u8_word(1, 2)], 7);
+    for (k, basic) in [(1u64, true), (1, false), (0, true)] {
+        let t = if basic { 2 } else { 3 };
+        for ne in [None, Some(3)] {
+            traj_case(&m, 1.0, false, None, ne, None, basic, &[false, true], 2, vec![u8_word(k, t)], 7 + k);
+            traj_case(&m, 1.0, true, None, ne, None, basic, &[false, true], 2, vec![u8_word(k, t)], 9 + k);
+        }
+    }
 }
 
-fn mode_witness_imp() {
-    // F13: importance sampling on graphs whose signed J sum is <= 0
-    for edges in [vec![((0usize, 1usize), -1.0)], vec![((0, 1), 1.0), ((1, 2), -1.0)], vec![((0, 1), -1.0), ((1, 2), -0.5), ((2, 0), 1.0)]] {
+/// regression for fix 696e024 (was finding F13): importance sampling on graphs whose signed J sum is <= 0
+/// (used to panic in gen_range(0.0..total)), and with all J = 0 (falls back to uniform selection)
+fn mode_regress_imp() {
+    let graphs: Vec<Vec<(Edge, f64)>> = vec![
+        vec![((0, 1), -1.0)],
+        vec![((0, 1), 1.0), ((1, 2), -1.0)],
+        vec![((0, 1), -1.0), ((1, 2), -0.5), ((2, 0), 1.0)],
+        vec![((0, 1), 0.0), ((1, 2), 0.0)],
+        vec![((0, 1), -0.25), ((1, 2), 0.0), ((2, 0), -1.5), ((0, 1), 0.5)],
+    ];
+    for (i, edges) in graphs.into_iter().enumerate() {
         let n = 3;
-        let m = Model { edges, biases: vec![0.0; n] };
-        let input = format!("imp {} {}", m.show_edges(), n);
-        let mm = m.clone();
-        let r = catch(move || one_move(&mm, 1.0, true, 1, &vec![false; n], &[u8_word(1, 3), 1 << 63, 0]));
-        match r {
-            Ok(_) => emit(true, &input, "noP", Some(Ok(()))),
-            Err(p) => emit(true, &input, "P", Some(Err(format!("edge move with importance sampling panicked (total J = {}): {}", m.total_j(), p)))),
+        let m = Model { edges, biases: vec![0.25, 0.0, -0.5] };
+        for seed in 0..4u64 {
+            traj_case(&m, 0.5, true, None, Some(3), None, true, &[false, true, seed % 2 == 0], 3, vec![u8_word(1, 2)], 100 * i as u64 + seed);
+        }
+        // measured table boundaries (distinct pairs only)
+        if i < 3 {
+            let input = format!("imp {} {}", m.show_edges(), n);
+            let mm = m.clone();
+            let r = catch(move || {
+                let mut bounds = vec![];
+                for k in 0..mm.edges.len().saturating_sub(1) {
+                    let sel = |w: u64| -> usize {
+                        let (s, _, _) = one_move(&Model { edges: mm.edges.clone(), biases: vec![0.0; n] }, 0.0, true, 1, &vec![false; n], &[u8_word(1, 3), w, 0]);
+                        mm.edges.iter().position(|((a, b), _)| (0..s.len()).all(|i| s[i] == (i == *a || i == *b))).expect("flipped pair is an edge")
+                    };
+                    let (mut lo, mut hi) = (0u64, u64::MAX);
+                    if sel(0) > k {
+                        hi = 0;
+                    }
+                    while hi > lo && hi - lo > 1 {
+                        let mid = lo + (hi - lo) / 2;
+                        if sel(mid) > k {
+                            hi = mid
+                        } else {
+                            lo = mid
+                        }
+                    }
+                    bounds.push(hi as f64 / 18446744073709551616.0);
+                }
+                bounds
+            });
+            match r {
+                Ok(b) => {
+                    let out = if b.is_empty() { "-".to_string() } else { b.iter().map(|x| format!("~{:e}", x)).collect::<Vec<_>>().join(" ") };
+                    emit(true, &input, &out, Some(Ok(())))
+                }
+                Err(p) => emit(true, &input, "P", Some(Err(format!("edge move with importance sampling panicked: {}", p)))),
+            }
         }
     }
 }
@@ -862,9 +899,9 @@ fn main() {
         "kernworm" => mode_kern_worm(&a, &mut g),
         "search-worm" => mode_search_worm(&a, &mut g),
         "witness-worm" => mode_witness_worm(),
-        "witness-imp" => mode_witness_imp(),
+        "regress-imp" => mode_regress_imp(),
         "witness-asym" => mode_witness_asym(),
-        "witness-noedges" => mode_witness_noedges(),
+        "regress-noedges" => mode_regress_noedges(),
         m => panic!("unknown mode {}", m),
     }
 }
